@@ -88,6 +88,8 @@ func splitWrite(w []byte, names []string) (string, []byte, bool) {
 	return "", nil, false
 }
 
+var lockstepNames = []string{"tk", "tk", "tk", "50%done", "a%sb%d", "build:all", "sp ace", "q\"uote", "back\\slash", "{{.x}}", "$HOME", "#1"}
+
 // Check is the engine behind C19.
 func Check(env *core.Env, rep *core.Report) *core.Result {
 	thorough := env.Thorough()
@@ -146,7 +148,9 @@ func Check(env *core.Env, rep *core.Report) *core.Result {
 		}
 		sk := &sink{}
 		t := task.FromCommands("true")
-		t.Name = "tk"
+		// task names over printable ASCII: the name is data, never a format
+		tname := lockstepNames[i%len(lockstepNames)]
+		t.Name = tname
 		o, err := output.NewTaskOutput(t, output.FormatPrefixed, sk, sk)
 		if err != nil {
 			core.Broken("NewTaskOutput: %v", err)
@@ -177,9 +181,9 @@ func Check(env *core.Env, rep *core.Report) *core.Result {
 		var texts [][]byte
 		var concat []byte
 		for _, wr := range sk.writes {
-			_, txt, ok := splitWrite(wr, []string{"tk"})
+			_, txt, ok := splitWrite(wr, []string{tname})
 			if !ok {
-				add("prefixed:not-a-whole-prefixed-line", fmt.Sprintf("sink write %q is not one prefixed line (stream %v cuts %v)", wr, c.Stream, c.Cuts), c)
+				add("prefixed:not-a-whole-prefixed-line", fmt.Sprintf("sink write %q is not one line prefixed with the task's name %q (stream %v cuts %v)", wr, tname, c.Stream, c.Cuts), c)
 				return
 			}
 			texts = append(texts, txt)
@@ -231,6 +235,9 @@ func Check(env *core.Env, rep *core.Report) *core.Result {
 		var wgw sync.WaitGroup
 		for w := 0; w < nw; w++ {
 			name := fmt.Sprintf("task%d", w)
+			if i%3 == 0 {
+				name = fmt.Sprintf("t%%s-%d%%", w) // a name with per-cent signs
+			}
 			names = append(names, name)
 			var b []byte
 			for k := 0; k < 3+rng.Intn(10); k++ {
